@@ -370,8 +370,16 @@ func probe(b, other *o4.Bridge, accepted []byte, rng *mrand.Rand, c *conn) bool 
 		case retErr = <-done:
 			returned = true
 		case <-time.After(10 * time.Second):
-			w.Emit(vt.Ev{"event": "DriverDead", "why": "WrapConn did not return after all deadlines fired"})
-			return false
+			// every armed deadline has fired and 10 s have passed: the server neither closes nor returns - it is wedged
+			// (not in a Read at all, or parked in one with nothing armed): an observation of the code, not a dead driver
+			st3 := raw.State()
+			w.Emit(vt.Ev{"event": "Wedged", "in_read": st3.InRead > 0, "armed": st3.RArmed, "closed": st3.Closed})
+			mu.Lock()
+			muted = true
+			mu.Unlock()
+			l.A.Close()
+			l.B.Close()
+			return true
 		}
 	}
 	flushDl()
